@@ -107,6 +107,7 @@ type vSink struct {
 	fsStart   int
 	fsEnd     int
 	typ       string
+	rejected1 []string // ids of single-entity calls the sink rejected, in call order
 }
 
 func (s *vSink) GetConfig() map[string]interface{} {
@@ -125,10 +126,16 @@ func (s *vSink) processEntities(runner *Runner, entities []*server.Entity) error
 	call := s.calls
 	s.calls++
 	if call == s.failBatch {
+		if len(entities) == 1 {
+			s.rejected1 = append(s.rejected1, entities[0].ID)
+		}
 		return errors.New("sink failure")
 	}
 	for _, e := range entities {
 		if s.failing[e.ID] {
+			if len(entities) == 1 {
+				s.rejected1 = append(s.rejected1, e.ID)
+			}
 			return errors.New("sink rejects " + e.ID)
 		}
 	}
